@@ -5,6 +5,7 @@ import Driver.DelayedValidate
 import Driver.C20
 import Driver.C18
 import Driver.C11
+import Driver.C01
 
 def main (args : List String) : IO UInt32 := do
   let stdin ← IO.getStdin
@@ -16,4 +17,5 @@ def main (args : List String) : IO UInt32 := do
   | ["c20"] => C20Val.main stdin
   | ["c18"] => C18Val.main stdin
   | ["c11"] => C11Val.main stdin
+  | ["c01"] => C01Val.main stdin
   | _ => do IO.eprintln "usage: midriver <trval|entry|...>"; return 2
